@@ -37,7 +37,24 @@ def contains(big, small):
 SCALES = (2.0**-30, 2.0**-50, 2.0**-100, 2.0**40)
 
 
-def run_call(cfg, h, kind, eta, theta, scale=1.0):
+def lay_out(arr, layout):
+    """The same indicator values in another memory layout (the property quantifies over indicator VALUES; a Fortran-ordered or
+    strided array of the same shape holds the same indicators): 'F' = Fortran order, 'V' = non-contiguous view into a larger
+    array whose other entries are large decoys."""
+    if layout == 'C':
+        return arr
+    if layout == 'F':
+        out = np.asfortranarray(arr) if arr.ndim == 2 else np.full(2 * len(arr), 1e6)[::2]
+        if arr.ndim == 1:
+            out[:] = arr
+        return out
+    big = np.full(tuple(2 * k for k in arr.shape), 1e6)
+    view = big[::2, ::2] if arr.ndim == 2 else big[::2]
+    view[...] = arr
+    return view
+
+
+def run_call(cfg, h, kind, eta, theta, scale=1.0, layout='C'):
     """Executes one Doerfler call on a fresh replay; returns (error or None, info)."""
     if scale != 1.0:
         eta = np.array(eta, dtype=float) * scale
@@ -49,9 +66,9 @@ def run_call(cfg, h, kind, eta, theta, scale=1.0):
     try:
         with horizon(20000, log=log):
             if kind == 'iso':
-                m.dorfler_refine_isotropic(np.array(eta, dtype=float), theta)
+                m.dorfler_refine_isotropic(lay_out(np.array(eta, dtype=float), layout), theta)
             else:
-                m.dorfler_refine_anisotropic(np.array(eta, dtype=float).reshape(len(elems), 2), theta)
+                m.dorfler_refine_anisotropic(lay_out(np.array(eta, dtype=float).reshape(len(elems), 2), layout), theta)
     except (Exception, Horizon) as ex:
         return ('raised', repr(ex)), None
     top = [(r, ax) for d, r, ax in log if d == 0]
@@ -203,10 +220,10 @@ def work(item):
     outcomes = set()
     classes = set()
 
-    def one(kind, eta, theta, scale=1.0):
+    def one(kind, eta, theta, scale=1.0, layout='C'):
         nonlocal n
         n += 1
-        err, info = run_call(cfg, h, kind, eta, theta, scale)
+        err, info = run_call(cfg, h, kind, eta, theta, scale, layout)
         if err is None:
             m, before, top, prints = info
             err = oracle(ref, kind, eta, theta, m, before, top, prints)
@@ -219,8 +236,9 @@ def work(item):
                     err = ('mesh-invariant-after-marking:' + bad[0][0], bad[0][1])
             classes.add((kind, len([1 for r, ax in top if ax == 0]), len([1 for r, ax in top if ax == 1])))
         if err is not None and len(viols) < 3:
-            viols.append((err[0] + ('' if scale == 1.0 else '|scaled-indicators'), {'cfg': cfgname, 'history': h, 'kind': kind, 'eta': list(map(int, eta)), 'theta': theta,
-                                   'scale': scale, 'detail': err[1]}))
+            viols.append((err[0] + ('' if scale == 1.0 else '|scaled-indicators') + ('' if layout == 'C' else '|array-layout-' + layout),
+                          {'cfg': cfgname, 'history': h, 'kind': kind, 'eta': list(map(int, eta)), 'theta': theta,
+                           'scale': scale, 'layout': layout, 'detail': err[1]}))
 
     if mode == 'A':
         if N <= P['A_iso_max']:
@@ -230,6 +248,7 @@ def work(item):
                     if N <= P.get('A_scaled_max', 4):
                         for sc in SCALES:
                             one('iso', v, th, sc)
+                one('iso', v, 0.75, layout='V')
         if N <= P.get('A_scaled_max', 4) // 2 + 1:
             for v in itertools.product((0, 1, 2), repeat=2 * N):
                 for th in THETAS:
@@ -240,6 +259,10 @@ def work(item):
             for v in vs:
                 for th in THETAS:
                     one('aniso', v, th)
+                # the same indicators in the other memory layouts (one theta: the layout can only change WHICH entry is read)
+                one('aniso', v, 0.75, layout='F')
+                if N <= P['A_aniso_full']:
+                    one('aniso', v, 0.75, layout='V')
     elif mode == 'B':
         if N <= P['B_iso_max']:
             for bits in range(1, 2**N):
@@ -393,6 +416,7 @@ def run(ctx):
     }
     return ctx.finish('model_checking', cov, [
         'indicator alphabet {0,1,2} (all weak orders of the entries), theta in {1/4,1/2,3/4,0.9,0.99}',
+        'memory layouts of the indicator array: C order everywhere; Fortran order and a strided view at theta = 3/4 in mode A',
         'for an all-zero indicator vector both "mark nothing" and "mark one element" are accepted'])
 
 
@@ -422,7 +446,7 @@ def replay(ctx, data):
             return False
         err = oracle(ref, data['kind'], data['eta'], data['theta'], m, before, [(r, ax) for d, r, ax in log if d == 0], [])
     else:
-        err, info = run_call(cfg, h, data['kind'], data['eta'], data['theta'], float(data.get('scale', 1.0)))
+        err, info = run_call(cfg, h, data['kind'], data['eta'], data['theta'], float(data.get('scale', 1.0)), data.get('layout', 'C'))
         if err is None:
             err = oracle(ref, data['kind'], data['eta'], data['theta'], *info)
     print('result:', err)
